@@ -338,6 +338,33 @@ def it_cycle(I, a, k):
     return CycleV(list(items))
 
 
+def np_allclose(I, a, k):
+    """numpy.allclose(a, b, rtol, atol): all(|a - b| <= atol + rtol * |b|), scalars broadcast (finite values)"""
+    x, y = a[0], a[1]
+    rtol = k.get('rtol', a[2] if len(a) > 2 else 1e-05)
+    atol = k.get('atol', a[3] if len(a) > 3 else 1e-08)
+    xs = Mo.concrete_iter(I, x) if (Mo.is_list(x) or isinstance(x, tuple)) else None
+    ys = Mo.concrete_iter(I, y) if (Mo.is_list(y) or isinstance(y, tuple)) else None
+    if (Mo.is_list(x) and xs is None) or (Mo.is_list(y) and ys is None):
+        raise Unsupported('allclose over a symbolic-length sequence')
+    if xs is None and ys is None:
+        pairs = [(x, y)]
+    elif xs is None:
+        pairs = [(x, v) for v in ys]
+    elif ys is None:
+        pairs = [(v, y) for v in xs]
+    else:
+        if len(xs) != len(ys):
+            raise PyExc('ValueError', 'operands could not be broadcast together')
+        pairs = list(zip(xs, ys))
+    r = True
+    for u, v in pairs:
+        d = b_abs(I, [Mo.binop(I, ast.Sub(), u, v)], {})
+        bound = Mo.binop(I, ast.Add(), atol, Mo.binop(I, ast.Mult(), rtol, b_abs(I, [v], {})))
+        r = I.land(r, Mo.compare(I, ast.LtE(), d, bound))
+    return r
+
+
 def it_chain(I, a, k):
     out = []
     for s_ in a:
@@ -1031,6 +1058,7 @@ def lib_lookup(I, dotted):
         'functools.reduce': Builtin('functools.reduce', f_reduce),
         'itertools.cycle': Builtin('itertools.cycle', it_cycle),
         'itertools.chain': Builtin('itertools.chain', it_chain),
+        'numpy.allclose': Builtin('numpy.allclose', np_allclose),
         'numpy.prod': Builtin('numpy.prod', np_prod), 'numpy.product': Builtin('numpy.prod', np_prod),
         'random.random': Builtin('random.random', rnd_random),
         'random.sample': Builtin('random.sample', rnd_sample),
